@@ -165,6 +165,9 @@ func c03Child(dir string, seed uint64, tier string) {
 			if k == 2 {
 				kind = "xfer-same-ref-twice" // two transfer connections claim the same reference number at once
 			}
+			if k == 3 {
+				kind = "post-odd-presence" // name / icon / options fields of odd lengths, then the peer stays for a while
+			}
 			kindMu.Lock()
 			kindOf[src] = kind
 			kindMu.Unlock()
@@ -241,6 +244,17 @@ func c03Child(dir string, seed uint64, tier string) {
 					c.Write(refEncode(202, 61, RField{201, []byte("file.bin")}, RField{202, path}))
 					c.Write(refEncode(370, 62, RField{325, append([]byte{0xff, 0xff}, item...)}))
 					c.Write(refEncode(205, 63, RField{201, []byte("d")}, RField{202, path}))
+				case "post-odd-presence":
+					c.Write(handshakeBytes)
+					c.Write(login)
+					t.waitReply(1, 2*time.Second)
+					icon := r.Bytes(r.Pick(1, 1, 1, 3, 5))
+					// first only the icon and the name (this request is handled without complaint) ...
+					c.Write(refEncode(304, 40, RField{102, r.Bytes(r.Pick(0, 1, 300))}, RField{104, icon}))
+					t.readFor(700 * time.Millisecond) // ... and the peer is in the user list while the sentinel asks for it
+					// then options and automatic replies of odd lengths as well
+					c.Write(refEncode(121, 41, RField{102, r.Bytes(r.Pick(0, 1, 40))}, RField{104, icon}, RField{113, r.Bytes(r.Pick(1, 2))}))
+					c.Write(refEncode(304, 42, RField{104, icon}, RField{113, r.Bytes(r.Pick(0, 1, 3))}, RField{215, r.Bytes(r.Pick(0, 1, 600))}))
 				case "post-unknown-ids":
 					c.Write(handshakeBytes)
 					c.Write(login)
@@ -334,6 +348,23 @@ func c03Child(dir string, seed uint64, tier string) {
 				t.readFor(time.Duration(20+r.Intn(60)) * time.Millisecond)
 			}(src, kind, r)
 		}
+		// while the hostile peers of this batch are connected the sentinel asks for the user list
+		wg.Add(1)
+		go func() {
+			defer wg.Done()
+			time.Sleep(250 * time.Millisecond)
+			mu.Lock()
+			nextID++
+			id := nextID
+			mu.Unlock()
+			sc.Write(refEncode(300, id))
+			if !sent.waitReply(id, 5*time.Second) {
+				mu.Lock()
+				res.SentinelOK = false
+				res.Note += "sentinel got no reply to a user-list request while hostile peers were connected; "
+				mu.Unlock()
+			}
+		}()
 		wg.Wait()
 		res.Batches++
 		if !ping() {
